@@ -276,7 +276,12 @@ theorem stepFx_good {W : List Nat} (fx : Fixes) (cfg : Cfg) (st : St) (op : Op) 
     · exact h
     · next fs1 h1 => exact writeFsFx_good fx p 0 ora.coin (openFsFx_good fx p _ h h1) hd
   | dump pool => exact h
-  | crash => exact crash_good _ _ h
+  | crash =>
+    apply crash_good
+    show GoodFs W (if fx.crashTree = true then forgetUnreachable st.fs else st.fs)
+    split
+    · exact h
+    · exact h
 
 theorem runStFx_good {W : List Nat} (fx : Fixes) (cfg : Cfg) (h : List (Op × Ora)) :
     ∀ (st : St), GoodFs W st.fs → (∀ x ∈ h, OkBytes W (opData x.1)) → GoodFs W (runStFx fx cfg st h).fs := by
